@@ -191,6 +191,10 @@ var (
 	rAdjMax   = Rule{"TAB-ADJUSTMAX", rules.TabAdjustMax}
 	rLenCount = Rule{"TAB-LENCOUNT", rules.TabLenCount}
 	rNextVis  = Rule{"TAB-NEXTVISIT", rules.TabNextVisit}
+	rDangleB  = Rule{"ORD-DANGLE-BIN", rules.OrdDangleBin}
+	rUTF8     = Rule{"TAB-UTF8", rules.TabUTF8}
+	rLstClean = Rule{"ORD-LSTCLEAN", rules.OrdLstClean}
+	rBSScr    = Rule{"OWN-BSSCRATCH", rules.OwnBSScratch}
 	rFixedLST = Rule{"OWN-FIXEDLST", rules.OwnFixedLST}
 	rReflSet  = Rule{"TAB-REFLECTSET", rules.TabReflectSet}
 	rBounds   = Rule{"TAB-BOUNDS", rules.TabBounds}
@@ -227,22 +231,23 @@ var registry = map[string]*Property{
 		},
 	},
 	"C02": {
-		Decided:    "The text reader's finite tables equal the Ion 1.0 text tables: every escape with its code point and digit count, \\u and \\U refused inside clobs (TAB-ESCAPE, reader obligations); the 13 null.<type> names (TAB-NULLKW, reader obligations); every token the tokenizer can hand out at the start of a value has an arm in the reader's value dispatch (TAB-TOKEN, value arms); inside {{ }} no comment-skipping whitespace routine is reachable, so base64 text containing '//' or '/*' decodes (OWN-LOBWS); no comparison treats symbol ID 0 ($0) differently from the positive IDs (TAB-SID0); the timestamp parser separates second precision, nanosecond precision (up to nine digits) and rounding, and valid from invalid offsets, at the indices and values the grammar prescribes (TAB-BOUNDS, text timestamp obligations). Every function of the text tokenizer that recognises whitespace by comparing with ' ' and another whitespace character tests space, tab and line feed (TAB-WSSET); every caller of the comment-blind free function isStopChar looks for '/' itself (OWN-STOPCHAR). The code point of an escape in a string or symbol is never narrowed to a byte, and every function passes readEscapedChar the mode of the text kind it reads (TAB-ESCRUNE).",
+		Decided:    "The text reader's finite tables equal the Ion 1.0 text tables: every escape with its code point and digit count, \\u and \\U refused inside clobs (TAB-ESCAPE, reader obligations); the 13 null.<type> names (TAB-NULLKW, reader obligations); every token the tokenizer can hand out at the start of a value has an arm in the reader's value dispatch (TAB-TOKEN, value arms); inside {{ }} no comment-skipping whitespace routine is reachable, so base64 text containing '//' or '/*' decodes (OWN-LOBWS); no comparison treats symbol ID 0 ($0) differently from the positive IDs (TAB-SID0); the timestamp parser separates second precision, nanosecond precision (up to nine digits) and rounding, and valid from invalid offsets, at the indices and values the grammar prescribes (TAB-BOUNDS, text timestamp obligations). Every function of the text tokenizer that recognises whitespace by comparing with ' ' and another whitespace character tests space, tab and line feed (TAB-WSSET); every caller of the comment-blind free function isStopChar looks for '/' itself (OWN-STOPCHAR). The code point of an escape in a string or symbol is never narrowed to a byte, and every function passes readEscapedChar the mode of the text kind it reads (TAB-ESCRUNE). String, long-string and quoted-symbol text is validated as UTF-8 (TAB-UTF8, text obligation).",
 		Necessary:  "An escape decoded to another code point, a null.<type> name mapped to another type, or a value-start token without a dispatch arm makes a legal spelling decode to another value or to an error.",
 		NotDecided: "number, string-segmentation, comment/whitespace and timestamp grammar (behaviour of loops over characters); $n handling",
-		Technique:  tabTech + "; who-may-call check for the lob whitespace routines; spelling-insensitive boundary extraction for TAB-BOUNDS" + "; constant-set agreement of whitespace tests; who-may-call for isStopChar" + "; value-flow check of the escape rune and constant propagation of the escape mode through helper parameters",
+		Technique:  tabTech + "; who-may-call check for the lob whitespace routines; spelling-insensitive boundary extraction for TAB-BOUNDS" + "; constant-set agreement of whitespace tests; who-may-call for isStopChar" + "; value-flow check of the escape rune and constant propagation of the escape mode through helper parameters" + "; presence of the UTF-8 validation on the text side",
 		DesignRef:  "DESIGN.md §3.4, §4 C02",
 		Rules: []Rule{
 			only(rEscape, 18, whatHas("reader:")), only(rNullKW, 13, whatHas("reader:")), only(rToken, 14, whatHas("value arm")), rLobWS, rSid0, only(rBounds, 6, funcHas("ParseTimestamp", "computeTimezoneKind", "isIonYear")),
 			rWSSet, rStopChar,
 			rEscRune,
+			only(rUTF8, 1, funcHas("tokenizer")),
 		},
 	},
 	"C03": {
-		Decided:    "The binary reader's type-code table, the value type stored for each type code and the accepted float sizes equal the Ion 1.0 tables (TAB-TYPECODE, reader obligations); validateAnnotatedValue special-cases exactly the type codes whose low nibble bitstream.Next does not read as a body length, so a wrapper around true/false or a sorted struct is measured correctly (TAB-NIBBLE); each field is decoded with the primitive Ion 1.0 prescribes (TAB-CODEC, reader obligations); the VarUInt/VarInt accumulators cannot drop high bits and every narrowing in the bitstream and binary reader is in range (NUM-SHIFT, NUM-NARROW, bitstream obligations); bytes handed to the caller never alias the read buffer (OWN-INPUT, Peek obligations); every value decoder consumes exactly the declared length of the current value (TAB-BUDGET); once Next has replaced the tag's nibble by a decoded length it no longer reads 14 and 15 as 'length follows' and 'null' (TAB-NIBBLE-NEXT); a decimal's negative-zero flag comes from the coefficient's sign bit (ORD-DECNEGZERO); no unsigned length or position subtraction in the bitstream can wrap below zero (NUM-USUB). The symbols list of a local symbol table yields one entry per element on every path round its loop (ORD-APPENDEACH); a struct is taken for a symbol table by its first annotation only (TAB-LSTFIRSTANN); leaving a value always passes clear() (ORD-BSCLEAR). A decoded length is compared with the space left after its own length field (TAB-OVERRUN); imports: $ion_symbol_table hands back nothing only when there is no current table (ORD-APPENDCARRY).",
+		Decided:    "The binary reader's type-code table, the value type stored for each type code and the accepted float sizes equal the Ion 1.0 tables (TAB-TYPECODE, reader obligations); validateAnnotatedValue special-cases exactly the type codes whose low nibble bitstream.Next does not read as a body length, so a wrapper around true/false or a sorted struct is measured correctly (TAB-NIBBLE); each field is decoded with the primitive Ion 1.0 prescribes (TAB-CODEC, reader obligations); the VarUInt/VarInt accumulators cannot drop high bits and every narrowing in the bitstream and binary reader is in range (NUM-SHIFT, NUM-NARROW, bitstream obligations); bytes handed to the caller never alias the read buffer (OWN-INPUT, Peek obligations); every value decoder consumes exactly the declared length of the current value (TAB-BUDGET); once Next has replaced the tag's nibble by a decoded length it no longer reads 14 and 15 as 'length follows' and 'null' (TAB-NIBBLE-NEXT); a decimal's negative-zero flag comes from the coefficient's sign bit (ORD-DECNEGZERO); no unsigned length or position subtraction in the bitstream can wrap below zero (NUM-USUB). The symbols list of a local symbol table yields one entry per element on every path round its loop (ORD-APPENDEACH); a struct is taken for a symbol table by its first annotation only (TAB-LSTFIRSTANN); leaving a value always passes clear() (ORD-BSCLEAR). A decoded length is compared with the space left after its own length field (TAB-OVERRUN); imports: $ion_symbol_table hands back nothing only when there is no current table (ORD-APPENDCARRY). The end of a container is reported only after looking whether a field name is pending (ORD-DANGLE-BIN); the bitstream keeps no value data in fields that clear() does not reset (OWN-BSSCRATCH).",
 		Necessary:  "A type code decoded as another type, a refused float size, or a wrapper length check that misreads a bool's nibble (finding F13, fixed) rejects or misdecodes a valid encoding.",
 		NotDecided: "VarUInt/VarInt arithmetic, padding, NOP handling, struct ordering, lengths (behavioural); TAB-BUDGET of the design was not built",
-		Technique:  tabTech + "; " + "codec-family pairing (length function vs append function per operand, by SSA path) and codec tables compared with Ion 1.0" + "; " + numTech + "; escape walk of bufio.Reader.Peek results" + "; must-pass-through (append per loop iteration; clear() after a state store)" + "; edge-condition check of the exits of the append case",
+		Technique:  tabTech + "; " + "codec-family pairing (length function vs append function per operand, by SSA path) and codec tables compared with Ion 1.0" + "; " + numTech + "; escape walk of bufio.Reader.Peek results" + "; must-pass-through (append per loop iteration; clear() after a state store)" + "; edge-condition check of the exits of the append case" + "; field-write census of the bitstream against clear()",
 		DesignRef:  "DESIGN.md §3.4, §4 C03",
 		Rules: []Rule{
 			only(rTypecode, 30, whatLacks("binaryNulls[")), rNibble,
@@ -250,6 +255,7 @@ var registry = map[string]*Property{
 			only(rOwnInput, 2, whatHas("slice returned by Peek")), rBudget, rNibNext, rDecNZ, only(rUSub, 8, posHas("ion/bitstream.go")),
 			rAppEach, rLSTAnn, rBSClear,
 			rOverrun, rAppCarry,
+			rDangleB, rBSScr,
 		},
 	},
 	"C04": {
@@ -287,24 +293,25 @@ var registry = map[string]*Property{
 		},
 	},
 	"C07": {
-		Decided:    "The Reader error state is absorbing and every effect of a Reader method happens after 'no error yet' was established (ERR-ABSORB-R); an error obtained from the input layer is made sticky before it is returned (ERR-STICKY-R); end of input inside an open binary container is never a nil-error return (ORD-EOFDEPTH); the text reader ends a sequence in the value position only when no annotations are pending (ORD-DANGLE); a negative integer with a zero magnitude is rejected whichever representation the magnitude was decoded into (ORD-NEGZERO); in the reader files no error is discarded (ERR-DROP) and no path from a non-nil error test reaches an exit without consuming the error or returning a definitely non-nil one (ERR-SWAP). Clob-reading functions read escapes in clob mode, so \\u and \\U are refused there (TAB-ESCRUNE, mode obligations).",
+		Decided:    "The Reader error state is absorbing and every effect of a Reader method happens after 'no error yet' was established (ERR-ABSORB-R); an error obtained from the input layer is made sticky before it is returned (ERR-STICKY-R); end of input inside an open binary container is never a nil-error return (ORD-EOFDEPTH); the text reader ends a sequence in the value position only when no annotations are pending (ORD-DANGLE); a negative integer with a zero magnitude is rejected whichever representation the magnitude was decoded into (ORD-NEGZERO); in the reader files no error is discarded (ERR-DROP) and no path from a non-nil error test reaches an exit without consuming the error or returning a definitely non-nil one (ERR-SWAP). Clob-reading functions read escapes in clob mode, so \\u and \\U are refused there (TAB-ESCRUNE, mode obligations). The bitstream reports the end of a container only after looking whether a field name is pending (ORD-DANGLE-BIN); both readers validate string text as UTF-8 (TAB-UTF8).",
 		Necessary:  "A Next that continues after an error, an input-layer error that never reaches Err(), a truncated container read as complete (F14, fixed), 'a::' accepted (F15, fixed) or a dropped tokenizer/bitstream error each let malformed input finish with Err()==nil or let Next resume.",
 		NotDecided: "that each grammar violation in the property's catalogue is detected by some check in the tokenizer or bitstream",
-		Technique:  ssaTech + "; phi-edge inspection of the negative-zero flag" + "; constant propagation of the escape mode through helper parameters",
+		Technique:  ssaTech + "; phi-edge inspection of the negative-zero flag" + "; constant propagation of the escape mode through helper parameters" + "; path search from the end-of-container test to the EOF store; sibling check of the UTF-8 validation",
 		DesignRef:  "DESIGN.md §3.1, §3.5, §4 C07",
 		Rules: []Rule{
 			rAbsorbR, rStickyR, rOrdEOFDepth, rOrdDangle, rNegZero,
 			{"ERR-DROP", rules.ErrDrop(rules.ScopeReader, nil, 150)}, {"ERR-SWAP", rules.ErrSwap(rules.ScopeReader, rules.SwapSuppReader, 150)},
 			only(rEscRune, 3, whatHas("escape mode")),
+			rDangleB, rUTF8,
 		},
 	},
 	"C08": {
-		Decided:    "Every Reader method exit that refuses a call (returns a fresh *UsageError) is free of side effects on the reader (REFUSE-PURE); every token the tokenizer hands out as an unfinished value has a skip arm (TAB-TOKEN, skip arms); StepIn enters a nesting level only for a non-null container in both implementations (ORD-STEPIN); none of the lob readers and skippers reaches the comment-skipping whitespace routine, so skip and read agree that '/' inside {{ }} is data (OWN-LOBWS); in binary, reading a value and skipping it hand the same declared length to the primitive readers, so both end at the same byte (TAB-BUDGET). Every bitstream method that leaves a value passes clear() on each path to a successful exit (ORD-BSCLEAR); the text reader's raw scan for a container's end starts only when the tokenizer has no unfinished value (ORD-TOKFINISH).",
+		Decided:    "Every Reader method exit that refuses a call (returns a fresh *UsageError) is free of side effects on the reader (REFUSE-PURE); every token the tokenizer hands out as an unfinished value has a skip arm (TAB-TOKEN, skip arms); StepIn enters a nesting level only for a non-null container in both implementations (ORD-STEPIN); none of the lob readers and skippers reaches the comment-skipping whitespace routine, so skip and read agree that '/' inside {{ }} is data (OWN-LOBWS); in binary, reading a value and skipping it hand the same declared length to the primitive readers, so both end at the same byte (TAB-BUDGET). Every bitstream method that leaves a value passes clear() on each path to a successful exit (ORD-BSCLEAR); the text reader's raw scan for a container's end starts only when the tokenizer has no unfinished value (ORD-TOKFINISH). The bitstream keeps no value data in fields that clear() does not reset, so what a value decodes to does not depend on which values were decoded before (OWN-BSSCRATCH).",
 		Necessary:  "A refused StepIn/StepOut/accessor that changes cursor state, or a value kind that cannot be skipped, makes later results depend on the navigation.",
 		NotDecided: "agreement of skip and read on where an arbitrary value ends (finding F17, clob text containing '}', was repaired but no rule would detect its return)",
-		Technique:  ssaTech + "; " + tabTech + "; enum value-set and nil-fact dominance at nesting-level pushes; who-may-call check for the lob whitespace routines" + "; must-pass-through of clear() after state stores; typestate of the tokenizer's unfinished flag (finisher summaries by fixed point) before a raw scan",
+		Technique:  ssaTech + "; " + tabTech + "; enum value-set and nil-fact dominance at nesting-level pushes; who-may-call check for the lob whitespace routines" + "; must-pass-through of clear() after state stores; typestate of the tokenizer's unfinished flag (finisher summaries by fixed point) before a raw scan" + "; field-write census of the bitstream against clear()",
 		DesignRef:  "DESIGN.md §3.1, §3.4, §4 C08",
-		Rules:      []Rule{rRefuse, only(rToken, 13, whatHas("skip arm")), rStepIn, rLobWS, rBudget, rBSClear, rTokFin},
+		Rules:      []Rule{rRefuse, only(rToken, 13, whatHas("skip arm")), rStepIn, rLobWS, rBudget, rBSClear, rTokFin, rBSScr},
 	},
 	"C09": {
 		Decided:    "Every insertion into a symbol text index (buildIndex, symbolTableBuilder.Add, Build) happens only when the text is not present yet, with imports consulted before locals, or copies an existing index (ORD-FIRSTWINS); NewSymbolTokenBySID looks an ID up only after 0 <= sid <= MaxID() was established and rejects everything else (ORD-SIDBOUND); a local table resolves text through its imports before its own index on every path (ORD-IMPORTFIRST); Build neither writes to the builder nor hands the builder's own symbols/index storage to the built table (OWN-BUILD); every table object is built with an index that describes exactly the symbols it holds (TAB-INDEXPAIR). Every table sst.Adjust(n) returns has max_id n: a new table stores the parameter, the receiver is returned only under maxID == s.maxID (TAB-ADJUSTMAX).",
@@ -323,23 +330,24 @@ var registry = map[string]*Property{
 		Rules:      []Rule{rOrdBVMReset, rOrdLstHide, {"NIL-ACC", rules.NilAcc(rules.ScopeLST, 4)}, rTokCache, only(rBounds, 1, funcHas("readImport")), rTextIVM, rAppEach, rLSTAnn, rAppCarry},
 	},
 	"C11": {
-		Decided:    "The field names and the annotation the symbol table writer emits are exactly those the symbol table reader dispatches on, max_id included (TAB-LSTFIELDS); the fixed/imported table is written before the first value (ORD-LSTFIRST); the builder consults imports and existing entries before defining a local symbol (ORD-FIRSTWINS); token text reaches the table lookup as it is — never through the '$n' interpretation, which would bypass a fixed table's 'not defined' error and emit an arbitrary ID (OWN-TEXTAUTH, binary writer obligations); with a fixed table, text it does not define ends in a non-nil error (OWN-FIXEDLST). No exported function of package ion ignores one of its named parameters, so shared tables, catalogs and options handed to a constructor or Marshal helper reach the writer (OWN-PARAMUSED). Every table sst.Adjust(n) returns has max_id n (TAB-ADJUSTMAX); lst.WriteTo writes one list element per entry of the table's symbols (ORD-APPENDEACH, writer obligation).",
+		Decided:    "The field names and the annotation the symbol table writer emits are exactly those the symbol table reader dispatches on, max_id included (TAB-LSTFIELDS); the fixed/imported table is written before the first value (ORD-LSTFIRST); the builder consults imports and existing entries before defining a local symbol (ORD-FIRSTWINS); token text reaches the table lookup as it is — never through the '$n' interpretation, which would bypass a fixed table's 'not defined' error and emit an arbitrary ID (OWN-TEXTAUTH, binary writer obligations); with a fixed table, text it does not define ends in a non-nil error (OWN-FIXEDLST). No exported function of package ion ignores one of its named parameters, so shared tables, catalogs and options handed to a constructor or Marshal helper reach the writer (OWN-PARAMUSED). Every table sst.Adjust(n) returns has max_id n (TAB-ADJUSTMAX); lst.WriteTo writes one list element per entry of the table's symbols (ORD-APPENDEACH, writer obligation). A writer serialises its symbol table through its own methods only after clear() (ORD-LSTCLEAN).",
 		Necessary:  "An import declaration the reader does not understand leaves every imported ID unresolvable; a table after the first value or a local redefinition of imported text emits IDs the stream does not (minimally) define.",
 		NotDecided: "ID arithmetic across imports; minimality of the emitted table beyond lookup-before-add",
-		Technique:  tabTech + "; SSA dominance for ORD; call-graph fixed point and value flow for OWN-TEXTAUTH; copy-source and path search rules for the builder and the writer" + "; SSA referrer check of exported functions' parameters" + "; postcondition check of Adjust; must-pass-through of a write per loop iteration",
+		Technique:  tabTech + "; SSA dominance for ORD; call-graph fixed point and value flow for OWN-TEXTAUTH; copy-source and path search rules for the builder and the writer" + "; SSA referrer check of exported functions' parameters" + "; postcondition check of Adjust; must-pass-through of a write per loop iteration" + "; must-pass-through of clear() before WriteTo(w), through callers of unexported helpers",
 		DesignRef:  "DESIGN.md §3.4, §3.5, §4 C11",
-		Rules:      []Rule{rLstFields, rOrdLstFirst, rOrdFirstWins, only(rTextAuth, 2, posHas("ion/binarywriter.go")), rImpFirst, rBuild, rWrCache, rIdxPair, rFixedLST, rParamUse, rAdjMax, only(rAppEach, 1, whatHas("one list element per entry"))},
+		Rules:      []Rule{rLstFields, rOrdLstFirst, rOrdFirstWins, only(rTextAuth, 2, posHas("ion/binarywriter.go")), rImpFirst, rBuild, rWrCache, rIdxPair, rFixedLST, rParamUse, rAdjMax, only(rAppEach, 1, whatHas("one list element per entry")), rLstClean},
 	},
 	"C12": {
-		Decided:    "For all 24 error-returning Writer methods on each writer implementation: the sticky error is tested before any effect on the writer (ERR-GUARD-W) and every returned error is the sticky error (ERR-STICKY-W); every value opened is closed on each success path (ORD-VALUE); Finish re-arms the binary writer before every success exit (ORD-REARM); every panicking pop on the writer-side stacks is dominated by a non-emptiness fact (ORD-POPGUARD, writer obligations); nothing in the writer implementation reachable from the Writer methods consults a time-, random- or schedule-dependent source and every map range there has an order-insensitive body (OWN-NONDET, functions outside marshal.go, fields.go and the command); an exit that refuses a call with an unrecorded UsageError (Finish away from the top level) is reached before any effect on the writer (REFUSE-PURE-W); closing a container reaches clear() before every exit that may succeed, so a pending field name or annotation never leaks to a later value (ORD-ENDCLEAR); the binary writer keeps no text-to-ID memory that outlives its symbol table builder (OWN-WRCACHE). The text writer forgets an owed separator only on a path that writes to the output (ORD-SEPSTATE). A slice emptied by reslicing is not stored into a writer field while a value read from the same field is still used, so pending annotations set aside during the symbol table's emission are not overwritten (OWN-RESLICE0).",
+		Decided:    "For all 24 error-returning Writer methods on each writer implementation: the sticky error is tested before any effect on the writer (ERR-GUARD-W) and every returned error is the sticky error (ERR-STICKY-W); every value opened is closed on each success path (ORD-VALUE); Finish re-arms the binary writer before every success exit (ORD-REARM); every panicking pop on the writer-side stacks is dominated by a non-emptiness fact (ORD-POPGUARD, writer obligations); nothing in the writer implementation reachable from the Writer methods consults a time-, random- or schedule-dependent source and every map range there has an order-insensitive body (OWN-NONDET, functions outside marshal.go, fields.go and the command); an exit that refuses a call with an unrecorded UsageError (Finish away from the top level) is reached before any effect on the writer (REFUSE-PURE-W); closing a container reaches clear() before every exit that may succeed, so a pending field name or annotation never leaks to a later value (ORD-ENDCLEAR); the binary writer keeps no text-to-ID memory that outlives its symbol table builder (OWN-WRCACHE). The text writer forgets an owed separator only on a path that writes to the output (ORD-SEPSTATE). A slice emptied by reslicing is not stored into a writer field while a value read from the same field is still used, so pending annotations set aside during the symbol table's emission are not overwritten (OWN-RESLICE0). A writer serialises its symbol table through its own methods only after clear(), so an annotation pending at Finish is dropped, not attached to the table (ORD-LSTCLEAN).",
 		Necessary:  "A method that works after an earlier error or returns an error it does not remember lets a later Finish return nil (F1–F3, fixed); an unclosed value or a Finish that is not re-armed emits an invalid stream on a nil Finish (F4, fixed); an unguarded pop panics on an illegal call sequence; a nondeterminism source makes the same calls yield different bytes.",
 		NotDecided: "validity of the emitted stream beyond pairing (see C04), nil pointer arguments, WriteNullType with an out-of-range Type (finding F23, TAB-INDEX not built)",
-		Technique:  ssaTech + "; forward path search to exits for ORD-ENDCLEAR / OWN-WRCACHE / REFUSE-PURE-W" + "; must-pass-through of an output write around separator-state resets" + "; alias check on s[:0] stores",
+		Technique:  ssaTech + "; forward path search to exits for ORD-ENDCLEAR / OWN-WRCACHE / REFUSE-PURE-W" + "; must-pass-through of an output write around separator-state resets" + "; alias check on s[:0] stores" + "; must-pass-through of clear() before WriteTo(w)",
 		DesignRef:  "DESIGN.md §3.1, §3.5, §3.6, §4 C12",
 		Rules: []Rule{
 			rGuardW, rStickyW, rOrdValue, rOrdRearm, only(rOrdPopGuard, 2, funcHas("Writer", "writer")), only(rOwnNondet, 40, posLacks("ion/marshal.go", "ion/fields.go", "cmd/")), rRefuseW, rEndClear, rWrCache,
 			rSepState,
 			rReslice0,
+			rLstClean,
 		},
 	},
 	"C13": {
@@ -451,6 +459,10 @@ var devRules = map[string]Rule{
 	"TAB-ADJUSTMAX":   rAdjMax,
 	"TAB-LENCOUNT":    rLenCount,
 	"TAB-NEXTVISIT":   rNextVis,
+	"ORD-DANGLE-BIN":  rDangleB,
+	"TAB-UTF8":        rUTF8,
+	"ORD-LSTCLEAN":    rLstClean,
+	"OWN-BSSCRATCH":   rBSScr,
 	"NUM-NARROW-TU":   {"NUM-NARROW", rules.NumNarrow(rules.Scope{Name: "textutils.go", Pkgs: []string{"ion"}, Files: []string{"textutils.go"}}, nil, 0)},
 	"NUM-NARROW":      {"NUM-NARROW", rules.NumNarrow(rules.ScopeNum, rules.NarrowResiduals, 0)},
 	"NUM-SHIFT":       {"NUM-SHIFT", rules.NumShift(rules.ScopeNum, rules.ShiftResiduals, 0)},
